@@ -126,11 +126,11 @@ Lemma unmarshal_t_var vf be x c : unmarshal_t (S vf) be (EVar x) c =
   | Ok [t'] =>
       do c1 <- u_align (align t') (snd r);
       do c2 <- u_enter c1;
-      do n <- validate 66 be (udepth c2) (uoff c1) (ubuf c1) t';
-      do s <- u_sub n c1;
+      do n <- validate 66 be (udepth c2) (uoff c2) (ubuf c2) t';
+      do s <- u_sub n c2;
       if ty_eqb t' (erase x) then
         do v <- unmarshal_t vf be x (fst s);
-        Ok (VVariant t' (fst v), snd s)
+        Ok (VVariant t' (fst v), u_leave (snd s))
       else Err
   | _ => Err
   end.
@@ -185,11 +185,11 @@ Lemma unmarshal_r_var vf be x c : unmarshal_r (S vf) be (RVar x) c =
   | Ok [t'] =>
       do c1 <- u_align (align t') (snd r);
       do c2 <- u_enter c1;
-      do n <- validate 66 be (udepth c2) (uoff c1) (ubuf c1) t';
-      do s <- u_sub n c1;
+      do n <- validate 66 be (udepth c2) (uoff c2) (ubuf c2) t';
+      do s <- u_sub n c2;
       if ty_eqb t' (sig_r x) then
         do v <- unmarshal_r vf be x (fst s);
-        Ok (VVariant t' (fst v), snd s)
+        Ok (VVariant t' (fst v), u_leave (snd s))
       else Err
   | _ => Err
   end.
@@ -317,7 +317,9 @@ Proof.
   - rewrite unmarshal_t_var in H. inv_bind H.
     destruct (parse_description (fst a)) as [[|t' [|? ?]]| | | |]; try discriminate.
     do 4 inv_bind H. destruct (ty_eqb t' (erase x)); [|discriminate]. inv_bind H. injection H as <-.
-    apply u_align_inv in E0. apply (u_sub_inv _ _ _ E0 E3).
+    apply u_align_inv in E0.
+    assert (E0' : inv a1) by (unfold u_enter in E1; destruct (_ <=? _); [discriminate|]; injection E1 as <-; exact E0).
+    destruct (u_sub_inv _ _ _ E0' E3) as [_ Hs]. exact Hs.
 Qed.
 
 (** ** the derived struct decodes exactly as the tuple of its fields *)
@@ -390,8 +392,8 @@ Proof.
     destruct (parse_description (fst r0)) as [[|t' [|? ?]]| | | |]; try reflexivity.
     destruct (u_align (align t') (snd r0)) as [c1| | | |]; cbn [bind]; try reflexivity.
     destruct (u_enter c1) as [c2| | | |]; cbn [bind]; try reflexivity.
-    destruct (validate 66 be (udepth c2) (uoff c1) (ubuf c1) t') as [n| | | |]; cbn [bind]; try reflexivity.
-    destruct (u_sub n c1) as [s| | | |]; cbn [bind]; try reflexivity.
+    destruct (validate 66 be (udepth c2) (uoff c2) (ubuf c2) t') as [n| | | |]; cbn [bind]; try reflexivity.
+    destruct (u_sub n c2) as [s| | | |]; cbn [bind]; try reflexivity.
     destruct (ty_eqb t' (sig_r x)); [|reflexivity]. now rewrite IHvf.
   - rewrite unmarshal_r_derived, unmarshal_t_struct.
     destruct (u_align 8 c) as [c0| | | |] eqn:E; cbn [bind]; try reflexivity.
